@@ -925,7 +925,7 @@ func checkMessageSerializer(c *Ctx, rid string, fn *ssa.Function, tt typeTables,
 				c.note("R01.b: a message whose Type is none of the declared constants serializes as %s (no default case)", got)
 			case hasByte && (b == '+' || b == '-' || b == ':'):
 				okForm := len(toks) == 3 && (toks[0].K == "TypeByte" || (toks[0].K == "Const" && toks[0].S == string(rune(b)))) &&
-					(toks[1].K == "Payload" || toks[1].K == "San" || (!strict && toks[1].K == "SanRune")) && toks[1].S == payField &&
+					((strict && toks[1].K == "Payload") || toks[1].K == "San" || (!strict && toks[1].K == "SanRune")) && toks[1].S == payField &&
 					toks[2].K == "Const" && toks[2].S == "\r\n"
 				if okForm {
 					c.ok(rid, key, pos, got)
